@@ -2116,6 +2116,46 @@ def check_peer_id_identity_derived(ob, prog, key="PeerId"):
     ob.require(ok, f"{key}/shape", "PeerId is no longer a [u8; 32] newtype", "anemo::types::peer_id::PeerId")
 
 
+def check_drop_impls_closed(ob, prog, allowed, crates=("anemo", "anemo_tower"), key="drop-impls"):
+    """Closed world of destructors: only the listed library types run code when dropped (a new `impl Drop` on a handle,
+    a connection or a guard could close, cancel or release behind the application's back)."""
+    have = sorted(str(i["self_ty"]) for i in prog.impls if i["trait"] == "core::ops::drop::Drop" and str(i["self_ty"]).split("::")[0] in crates)
+    ob.count(len(have))
+    for t in have:
+        ob.require(any(t == a or t.startswith(a + "<") for a in allowed), f"{key}/{t}", f"`impl Drop for {t}` is not one of the destructors the rules account for ({sorted(allowed)})", t)
+    ob.floor(have, len(allowed), "Drop impls of the library")
+
+
+def check_derived(ob, prog, ty, trait, key=None):
+    ims = [i for i in prog.impls if i["self_ty"] == ty and i["trait"] == trait]
+    ob.require(len(ims) == 1 and ims[0].get("derived") is True, f"{key or ty.split('::')[-1]}/derived/{trait.split('::')[-1]}",
+               f"{ty}: impl {trait} derived={[i.get('derived') for i in ims]} (a hand-written one can substitute other values)", ty)
+
+
+def check_builder_setters(ob, prog, ty, setters, key="builder"):
+    """`Builder::x(mut self, v) -> Self` stores exactly what it was given in its own field and touches no other field."""
+    for name, (field, param) in setters.items():
+        b = prog.body(f"{ty}::{name}")
+        if b is None:
+            raise AnchorLost(f"body {ty}::{name}")
+        o = Origins(b)
+        writes = []
+        for bl in b.blocks:
+            if bl.get("cleanup"):
+                continue
+            for st in bl["s"]:
+                if st["k"] == "assign" and not isinstance(st["lhs"], int) and st["lhs"]["l"] == 1:
+                    fs = [e.get("n") for e in st["lhs"]["p"] if isinstance(e, dict) and "n" in e]
+                    if fs:
+                        writes.append((fs[0], o.of_rvalue(st["rv"])))
+        okw = [w for w in writes if w[0] == field]
+        other = [w[0] for w in writes if w[0] != field]
+        v = strip_identity(okw[0][1]) if len(okw) == 1 else ("?",)
+        oks = v[0] == "agg" and str(v[2]).endswith("Option::Some") and any((x[0] == "param" and x[2] == param) for x in walk(v))
+        ob.require(len(okw) == 1 and oks and not other, f"{key}/{name}", f"{ty.split('::')[-1]}::{name} stores {show(v)[:80]} in `{field}`" + (f" and also writes {other}" if other else ""), b.path)
+        ob.require(is_param(strip_identity(o.of_local(0)), "self"), f"{key}/{name}/returns-self", f"{ty.split('::')[-1]}::{name} does not return the builder it was called on", b.path)
+
+
 def _impl_body(prog, ty, trait_frag, method):
     c = [b for p_, b in prog.bodies.items() if (p_.startswith(f"<{ty}<") or p_.startswith(f"<{ty} as ")) and f" as {trait_frag}" in p_ and p_.endswith(f">::{method}")]
     return c[0] if len(c) == 1 else None
